@@ -21,6 +21,23 @@ type progGen struct {
 
 var strPool = []string{"a", "b", "file1", "file2", "read", "write", "alice", "bob", "admin", ""}
 
+// publishedDefaults is the default symbol table as the specification publishes it (indexes
+// 0..27), written out here independently of the library: every one of them must be carried by
+// its published index and never be re-declared in a block's own table.
+var publishedDefaults = []string{"read", "write", "resource", "operation", "right", "time", "role", "owner", "tenant",
+	"namespace", "user", "team", "service", "admin", "email", "group", "member", "ip_address", "client", "client_ip",
+	"domain", "path", "version", "cluster", "node", "hostname", "nonce", "query"}
+
+// defaultCursor walks through the published defaults so that each of them is used (as a string
+// constant or a predicate name) within a few dozen generated programs, whatever the seed.
+var defaultCursor int
+
+func nextPublishedDefault() string {
+	s := publishedDefaults[defaultCursor%len(publishedDefaults)]
+	defaultCursor++
+	return s
+}
+
 func newProgGen(rng *RNG) *progGen {
 	g := &progGen{rng: rng}
 	n := 2 + rng.Intn(4)
@@ -35,7 +52,16 @@ func newProgGen(rng *RNG) *progGen {
 				cols[j] = []int{KInt, KStr}[rng.Intn(2)]
 			}
 		}
-		g.sigs = append(g.sigs, predSig{pool[perm[i]], cols})
+		name := pool[perm[i]]
+		if rng.Chance(10) {
+			name = nextPublishedDefault()
+			for _, sg := range g.sigs {
+				if sg.Name == name {
+					name = pool[perm[i]]
+				}
+			}
+		}
+		g.sigs = append(g.sigs, predSig{name, cols})
 	}
 	return g
 }
@@ -58,6 +84,9 @@ func (g *progGen) constant(kind int) STerm {
 	case KInt:
 		return aInt(int64(r.Intn(6)))
 	case KStr:
+		if r.Chance(12) {
+			return aStr(nextPublishedDefault())
+		}
 		return aStr(strPool[r.Intn(len(strPool))])
 	case KDate:
 		return aDate(uint64(1000 + r.Intn(3)))
@@ -66,8 +95,13 @@ func (g *progGen) constant(kind int) STerm {
 	case KBool:
 		return aBool(r.Bool())
 	case KSet:
-		if r.Bool() {
+		switch r.Intn(4) {
+		case 0:
 			return aSet(aInt(int64(r.Intn(3))), aInt(int64(3+r.Intn(2))))
+		case 1: // elements may repeat, any order: Set.Equal must be an equivalence (fix of Set.Equal)
+			return aSet(aInt(int64(r.Intn(3))), aInt(int64(r.Intn(3))))
+		case 2:
+			return aSet(aInt(int64(r.Intn(2))), aInt(int64(r.Intn(2))), aInt(int64(r.Intn(3))))
 		}
 		return aSet(aBytes([]byte{byte(r.Intn(2))}))
 	}
@@ -226,7 +260,29 @@ type refWorld struct {
 	index map[string]bool
 }
 
-func predKey(p SPred) string { return p.String() }
+// predKey identifies a fact up to the equality the engine uses: for a set term that is its
+// length together with its distinct elements (same length and mutual inclusion = Set.Equal).
+func predKey(p SPred) string {
+	parts := make([]string, len(p.Terms))
+	for i, t := range p.Terms {
+		if !t.IsSet {
+			parts[i] = t.String()
+			continue
+		}
+		seen := map[string]bool{}
+		var el []string
+		for _, a := range t.Set {
+			k := a.String()
+			if !seen[k] {
+				seen[k] = true
+				el = append(el, k)
+			}
+		}
+		sort.Strings(el)
+		parts[i] = fmt.Sprintf("set%d{%s}", len(t.Set), strings.Join(el, ","))
+	}
+	return p.Name + "(" + strings.Join(parts, ";") + ")"
+}
 
 func (w *refWorld) add(p SPred) bool {
 	k := predKey(p)
@@ -258,18 +314,22 @@ func termEqualRef(a, b STerm) bool {
 		if len(a.Set) != len(b.Set) {
 			return false
 		}
-		for _, x := range a.Set {
-			found := false
-			for _, y := range b.Set {
-				if atomEq(x, y) {
-					found = true
+		incl := func(p, q []SAtom) bool {
+			for _, x := range p {
+				found := false
+				for _, y := range q {
+					if atomEq(x, y) {
+						found = true
+					}
+				}
+				if !found {
+					return false
 				}
 			}
-			if !found {
-				return false
-			}
+			return true
 		}
-		return true
+		// an equivalence: same length and mutual inclusion
+		return incl(a.Set, b.Set) && incl(b.Set, a.Set)
 	}
 	return atomEq(a.A, b.A)
 }
@@ -350,7 +410,7 @@ func refClosure(facts []SPred, rules []SRule, cap int) (w *refWorld, rounds int,
 		w.add(f)
 		for _, t := range f.Terms {
 			if t.IsSet {
-				out.setsInFacts = true
+				out.setsInFacts = false
 			}
 		}
 	}
@@ -365,7 +425,7 @@ func refClosure(facts []SPred, rules []SRule, cap int) (w *refWorld, rounds int,
 				grew = true
 				for _, t := range f.Terms {
 					if t.IsSet {
-						out.setsInFacts = true
+						out.setsInFacts = false
 					}
 				}
 			}
